@@ -119,6 +119,11 @@ static std::vector<Expose> exposures()
     v.push_back({strf("vt_eq_%d", idx++), "vt == " + text_literal(k), [kk](const Env& e) { return e.at("vt").s == kk; }});
   }
   v.push_back({"vs_vt", "vs == vt", [](const Env& e) { return e.at("vs").s == e.at("vt").s; }});
+  // a string used as a boolean is true iff it is not empty - for a variable as for a literal
+  v.push_back({"vs_bool", "vs", [](const Env& e) { return !e.at("vs").s.empty(); }});
+  v.push_back({"vs_not", "not vs", [](const Env& e) { return e.at("vs").s.empty(); }});
+  v.push_back({"vt_and", "vi > -1000000 and vt", [](const Env& e) { return !e.at("vt").s.empty(); }});
+  v.push_back({"vs_or_vt", "vs or vt", [](const Env& e) { return !e.at("vs").s.empty() || !e.at("vt").s.empty(); }});
   return v;
 }
 
